@@ -56,8 +56,13 @@ def run(chk):
             if clause.startswith('machinery'):
                 from harness.common import MachineryError
                 raise MachineryError('trace %d rejected by a machinery clause: %s (%s)' % (tid, clause, infos[tid - 1]))
-            if not clause.startswith('C01'):
-                continue                      # C07 clauses are judged by check C07 on the same scenario family
+            relay_truncated = clause.startswith('C07 client connection closed while queued output was not fully sent')
+            if not (clause.startswith('C01') or relay_truncated):
+                continue                      # the other C07 clauses are judged by check C07 on the same scenario family
+            if relay_truncated:
+                # in the tunnel / http scenarios everything queued for the client is relayed upstream data:
+                # closing before it is sent loses bytes of the relayed stream
+                clause = 'C01 relayed bytes queued for the client were dropped: ' + clause
             sig = cc.classify(clause, traces[tid - 1], idx)
             info = infos[tid - 1]
             chk.violation(sig, '%s schedule %s (unit %d bytes%s): %s' % (
